@@ -4,6 +4,7 @@ import (
 	"context"
 	"errors"
 	"fmt"
+	"net"
 	"regexp"
 	"sort"
 	"strings"
@@ -13,8 +14,10 @@ import (
 	"cedarverif/harness/internal/bufpipe"
 	"cedarverif/harness/internal/refcodec"
 
+	"github.com/bbockelm/cedar/client"
 	"github.com/bbockelm/cedar/message"
 	"github.com/bbockelm/cedar/security"
+	"github.com/bbockelm/cedar/server"
 	"github.com/bbockelm/cedar/stream"
 )
 
@@ -382,8 +385,164 @@ func runClientCache(c *Ctx) error {
 		}
 		cases = append(cases, Case{Label: fmt.Sprintf("clientcache#%d", i), Ops: ops, Real: real})
 	}
+	cases = append(cases, ccRetryCases(c)...)
 	security.ClearSessionCache()
 	return diffBatch(c, "sc", cases, nil)
+}
+
+// ccRetryCases drives the PUBLIC client entry point (client.ConnectAndAuthenticateWithConfig, the
+// drop-on-failure retry of the property) against a real server.Server over loopback TCP:
+// full handshake -> resumption -> server restart (its session store forgotten) -> the next call must
+// come back with a FULL handshake on a fresh connection (the failed resumption dropped the cached
+// session and its routes), and the one after that resumes the new session. The client is configured
+// with and without PeerName: a session is filed under PeerName when there is one, else under the
+// address the stream is connected to — never both.
+func ccRetryCases(c *Ctx) []Case {
+	var cases []Case
+	const cmd = 60007
+	srvCfg := srvConf(true)
+	srvCfg.Authentication = security.SecurityOptional
+	srv := server.New(srvCfg)
+	srv.Handle(cmd, func(ctx context.Context, sc *server.Conn) error { return nil })
+	ln, err := net.Listen("tcp", "127.0.0.1:0")
+	if err != nil {
+		c.Res.Notes = append(c.Res.Notes, "clientcache/retry: cannot listen on loopback: "+err.Error())
+		return nil
+	}
+	defer ln.Close()
+	sctx, scancel := context.WithCancel(context.Background())
+	defer scancel()
+	go func() { _ = srv.Serve(sctx, ln) }()
+	addr := ln.Addr().String()
+	for i := 0; i < c.Pick(8, 60); i++ {
+		security.ClearSessionCache()
+		cache := security.NewSessionCache()
+		peerName := ""
+		if i%2 == 1 {
+			peerName = fmt.Sprintf("daemon-%d.pool.example", i)
+		}
+		tag := pick(c, []string{"", "T1"})
+		filed, other := addr, peerName // where the spec files the session, and where it must NOT be found
+		if peerName != "" {
+			filed, other = peerName, addr
+		}
+		var ops, real []string
+		log := func(o, r string) { ops = append(ops, o); real = append(real, r) }
+		log("reset", "ok")
+		viol := func(key, what, exp, obs string) {
+			c.Violate(Violation{Property: "C07", Key: "C07:" + key, What: what, Ops: append([]string{}, ops...), Expected: exp, Observed: obs})
+		}
+		connect := func() (*security.SecurityNegotiation, error) {
+			ctx, cancel := context.WithTimeout(context.Background(), ccHonestBound)
+			defer cancel()
+			sec := &security.SecurityConfig{AuthMethods: toMethods([]string{"CLAIMTOBE"}), Authentication: security.SecurityPreferred,
+				CryptoMethods: toCiphers([]string{"AES"}), Encryption: security.SecurityOptional, Integrity: security.SecurityOptional,
+				Command: cmd, SessionCache: cache, PeerName: peerName, SecurityTag: tag}
+			cl, err := client.ConnectAndAuthenticateWithConfig(ctx, &client.ClientConfig{Address: addr, Security: sec, Timeout: 10 * time.Second, ClientName: "c07"})
+			if err != nil {
+				return nil, err
+			}
+			defer cl.Close()
+			return cl.GetSecurityNegotiation(), nil
+		}
+		chs := func(answer, full string) string {
+			return fmt.Sprintf("chs tag=%s addr=%s cmd=%d answer=%s req=0 full=%s", tokEsc(tag), tokEsc(filed), cmd, answer, full)
+		}
+		fullOf := func(n *security.SecurityNegotiation) string {
+			return fmt.Sprintf("%s|1|%s|%s|%s", tokEsc(n.SessionId), tokEsc(n.User), b01(n.Authentication), canonList(n.ValidCommands))
+		}
+		lookups := func(want string) {
+			for _, a := range []string{filed, other} {
+				if a == "" {
+					continue
+				}
+				e, ok := cache.LookupByCommand(tag, a, fmt.Sprint(cmd))
+				r := "ok none"
+				if ok {
+					r = "ok sid=" + tokEsc(e.ID())
+				}
+				log(fmt.Sprintf("clookup tag=%s addr=%s cmd=%d", tokEsc(tag), tokEsc(a), cmd), r)
+				if a == filed && (!ok || e.ID() != want) {
+					viol("session-filed-under-wrong-address", "after a full handshake the session is not routed under the name the client knows the server by (PeerName when set, else the address the stream is connected to)", "route ("+filed+") -> "+want, r)
+				}
+				if a == other && ok {
+					viol("session-filed-under-wrong-address", "the session is ALSO routed under the name that does not apply (stream address although PeerName is set, or vice versa)", "no route under "+other, r)
+				}
+			}
+		}
+		// 1. full handshake
+		n1, err := connect()
+		if err != nil || n1 == nil || n1.SessionResumed || n1.SessionId == "" {
+			c.Res.Notes = append(c.Res.Notes, fmt.Sprintf("clientcache/retry: first connection did not complete a full handshake: %v", err))
+			continue
+		}
+		log(chs("authorized", fullOf(n1)), "ok full sid="+tokEsc(n1.SessionId))
+		lookups(n1.SessionId)
+		// 2. resumption
+		n2, err := connect()
+		if err != nil || n2 == nil {
+			viol("resume-failed-unexpectedly", "the second connection to the same server for the same command and tag failed", "resumed "+n1.SessionId, fmt.Sprint(err))
+			continue
+		}
+		if n2.SessionResumed {
+			log(chs("authorized", "~|none|~|0|-"), fmt.Sprintf("ok resumed sid=%s keyed=%s user=%s auth=%s", tokEsc(n2.SessionId), b01(len(n2.GetSharedSecret()) > 0), tokEsc(n2.User), b01(n2.Authentication)))
+			if n2.SessionId != n1.SessionId {
+				viol("reused-wrong-session", "the client resumed another session than the one cached for this (tag, server, command)", n1.SessionId, n2.SessionId)
+			}
+			c.Count("retry:resumed-before-restart")
+		} else {
+			c.Count("retry:second-connection-not-resumed")
+			log(chs("authorized", fullOf(n2)), "ok full sid="+tokEsc(n2.SessionId))
+			n1 = n2
+		}
+		// 3. server restart: it no longer knows the session. The public entry point must come back
+		// with a full handshake (failed resumption -> cached session dropped -> retry on a fresh connection).
+		security.ClearSessionCache()
+		c.Count("retry:server-restart")
+		n3, err := connect()
+		log(chs("sidNotFound", "~|none|~|0|-"), "ok resume-failed sid="+tokEsc(n1.SessionId))
+		if err != nil || n3 == nil {
+			log(chs("authorized", "~|none|~|0|-"), "ok no-retry")
+			viol("no-full-handshake-after-failed-resumption", "after the server forgot the session, client.ConnectAndAuthenticateWithConfig did not come back with a full handshake (the drop-on-failure retry is missing or the cached session was not dropped)", "authenticated connection through a full handshake", fmt.Sprintf("error class %s", ccErrClass(err)))
+		} else {
+			if n3.SessionResumed || n3.SessionId == n1.SessionId {
+				viol("dead-session-reused", "after the server forgot the session the client still reports it as resumed", "a new session from a full handshake", fmt.Sprintf("resumed=%v sid=%s", n3.SessionResumed, n3.SessionId))
+			}
+			log(chs("authorized", fullOf(n3)), "ok full sid="+tokEsc(n3.SessionId))
+			if _, still := cache.Lookup(n1.SessionId); still {
+				viol("failed-session-not-dropped", "the session whose resumption failed is still in the client's cache", "dropped", "present")
+			}
+			lookups(n3.SessionId)
+			// 4. and the new session is resumable
+			n4, err := connect()
+			if err == nil && n4 != nil && n4.SessionResumed {
+				log(chs("authorized", "~|none|~|0|-"), fmt.Sprintf("ok resumed sid=%s keyed=%s user=%s auth=%s", tokEsc(n4.SessionId), b01(len(n4.GetSharedSecret()) > 0), tokEsc(n4.User), b01(n4.Authentication)))
+				if n4.SessionId != n3.SessionId {
+					viol("reused-wrong-session", "the client resumed another session than the one cached for this (tag, server, command)", n3.SessionId, n4.SessionId)
+				}
+			} else {
+				c.Count("retry:fourth-connection-not-resumed")
+			}
+		}
+		c.Count(fmt.Sprintf("retry:peername-set:%v", peerName != ""))
+		c.Distinct(strings.Join(ops, "\n"), true)
+		cases = append(cases, Case{Label: fmt.Sprintf("clientcache/retry#%d", i), Ops: ops, Real: real})
+	}
+	return cases
+}
+
+// ccErrClass: a class for an error of the public client entry point (never its text).
+func ccErrClass(err error) string {
+	var sre *security.SessionResumptionError
+	switch {
+	case err == nil:
+		return "none"
+	case errors.As(err, &sre):
+		return "resumption-failed"
+	case errors.Is(err, context.DeadlineExceeded), errors.Is(err, context.Canceled):
+		return "cancelled"
+	}
+	return "other"
 }
 
 // canonList: a comma-separated list as a sorted set of trimmed non-empty items.
